@@ -2808,6 +2808,7 @@ class ChannelManager:
             )
             return
 
+        new_channels: list[LeCreditBasedChannel] = []
         for destination_cid in request.source_cid:
             # TODO: Handle Classic channels.
             if not (source_cid := self.find_free_le_cid(connection_channels)):
@@ -2835,7 +2836,7 @@ class ChannelManager:
             )
             connection_channels[source_cid] = channel
             le_connection_channels[destination_cid] = channel
-            server.on_connection(channel)
+            new_channels.append(channel)
 
         # Respond
         self.send_control_frame(
@@ -2850,6 +2851,11 @@ class ChannelManager:
                 result=L2CAP_Credit_Based_Connection_Response.Result.ALL_CONNECTIONS_SUCCESSFUL,
             ),
         )
+
+        # Notify the server of the new channels (after the response has been sent,
+        # so that data written by the server follows the response)
+        for channel in new_channels:
+            server.on_connection(channel)
 
     def on_l2cap_credit_based_connection_response(
         self,
